@@ -1,5 +1,5 @@
 import LokiModel.Props.C17
-import LokiModel.C18.Model
+import LokiModel.C18.Att
 /-!
 # C18 — pickling round trip (property theorems on the C17 heap model in pickle mode)
 -/
@@ -11,21 +11,26 @@ its owner, the unpickled root is owned by the copy (tag 2), every cell the round
 copy and its parent / table-parent references in the copy or the environment -/
 theorem unpickle_inv (f : Nat) (h : Heap) (u : Addr) (hi : Inv h) :
     Le h (unpickle f h u).1 ∧ Inv (unpickle f h u).1 ∧ (unpickle f h u).1.tagOf (unpickle f h u).2 = some 2 :=
-  copyUnit_ok pickleMode (by decide) f h none false u hi (fun _ e => by cases e)
+  copyUnit_ok pickleMode (by decide) f h none u hi (fun _ e => by cases e)
 
-/-- **symbols are attached inside the unpickled unit** (partial): every symbol occurrence of a cell of the copy either has no scope
-or is attached to a scope object of the copy (or the environment — unreachable here, the unpickled root has no parent).
-Partial because "no scope" is allowed: that is what the real code produces for host-associated symbols of member procedures of a
-pickled `Subroutine` (known class `pickle-member-parent-lost`, witness in `Findings/C18.lean`); the hypothesis `hres` (ghost flag clear)
-holds whenever it held before — pickle mode never raises it — and is compared by the correspondence on every case. -/
-theorem unpickle_attached_partial (f : Nat) (h : Heap) (u : Addr) (hi : Inv h) (hres : (unpickle f h u).1.unres = false)
+/-- **symbols are attached inside the unpickled unit**: after the round trip EVERY symbol occurrence of EVERY node cell of the copy
+is attached to a scope object owned by the copy (or the environment — unreachable, the unpickled root has no parent), for all heaps
+with the ownership invariant in which the copy's owner tag is fresh (`AttInv`, e.g. no cell tagged 2), all units, all fuel — provided
+every symbol name is declared in the new scope chain (ghost flag clear; compared by the correspondence on every case).  Since the
+repairs of `Subroutine.__setstate__` (members re-attached) and `AttachScopesMapper` (derived-type symbols) no symbol may stay unattached. -/
+theorem unpickle_attached (f : Nat) (h : Heap) (u : Addr) (hi : Inv h) (ha : AttInv h) (hres : (unpickle f h u).1.unres = false)
     (a : Addr) (lbl : String) (sc : Option (Addr × Option Addr)) (syms : List Sym) (kids : List Addr)
     (hc : (unpickle f h u).1.cells[a]? = some (2, .node lbl sc syms kids)) (s : Sym) (hs : s ∈ syms) :
-    s.scope = none ∨ ∃ r, s.scope = some r ∧ ((unpickle f h u).1.tagOf r = some 2 ∨ (unpickle f h u).1.tagOf r = some 0) := by
+    ∃ r, s.scope = some r ∧ ((unpickle f h u).1.tagOf r = some 2 ∨ (unpickle f h u).1.tagOf r = some 0) := by
+  have hatt : s.scope.isSome = true := by
+    rcases copyUnit_att pickleMode rfl f h none u ha with e | e
+    · have e' : (unpickle f h u).1.unres = true := e
+      rw [hres] at e'; cases e'
+    · exact e a lbl sc syms kids hc s hs
   cases hsc : s.scope with
-  | none => exact Or.inl rfl
+  | none => rw [hsc] at hatt; cases hatt
   | some r =>
-    refine Or.inr ⟨r, rfl, ?_⟩
+    refine ⟨r, rfl, ?_⟩
     have g := ((unpickle_inv f h u hi).2.1 a 2 _ hc).1 (by decide)
     have hm : r ∈ symRefs (.node lbl sc syms kids) := by
       simp only [symRefs, List.mem_filterMap]; exact ⟨s, hs, hsc⟩
@@ -33,6 +38,10 @@ theorem unpickle_attached_partial (f : Nat) (h : Heap) (u : Addr) (hi : Inv h) (
     · exact Or.inl e
     · exact Or.inr e
     · rw [hres] at e; cases e
+
+/-- a heap without cells owned by the copy satisfies `AttInv` (what the exporter produces) -/
+theorem attInv_of_fresh (h : Heap) (hf : ∀ (a : Nat) (c : Cell), h.cells[a]? ≠ some (2, c)) : AttInv h :=
+  Or.inr fun a _ _ _ _ hc => absurd hc (hf a _)
 
 /-- **nothing mutable is shared with the original** (partial): what is reachable from the original (owner 1) and from the unpickled
 copy (owner 2) through strong references and typedef links is environment only — given the typedef links respect ownership
